@@ -9,7 +9,8 @@ PROP = dict(
                "When every row ever written to a shard fits its cache and the cache was just recalculated, TopN(n) must return min(n, #non-empty rows) rows with "
                "exact counts, the largest ones, in non-increasing order (order only asserted for ranked caches). Exploration, not proof.",
     level_note="Trusted: Go toolchain, rapid, the map models. 'Rows fit the cache' is taken conservatively: the number of distinct rows ever named by a write "
-               "on the shard (including clears) is at most the cache size. Over several shards the selection of the n largest rows is only asserted when n covers "
+               "on the shard (including clears) is at most the cache size; or (fragment unit only) a recalculation found the cache holding at most CacheSize rows "
+               "(cache.Len()), the rows cached then plus the rows named since still fit, and every non-empty row was cached then (cache.IDs()) or changed since. Over several shards the selection of the n largest rows is only asserted when n covers "
                "all rows or the data lives in one shard (candidates are the per-shard top n by design); counts and result size are asserted always under (b). "
                "Attribute filters and tanimoto thresholds are not generated.",
     rule="fragment unit: set/mutex fragment, cache ranked|lru size 1|2|3|5|9|50000, histories of 1-25 (thorough 40) operations with top() queries after generated "
